@@ -145,8 +145,18 @@ def run_realistic(case, rng):
     coord = coord[np.random.default_rng(case["cseed"]).permutation(M)]      # no order at all
     x = (rng.standard_normal(batch + grid, dtype=np.float32)
          + 1j * rng.standard_normal(batch + grid, dtype=np.float32))
-    sig = "realistic|%dd|%s|b%d|%s" % (nd, "x".join(map(str, grid)), int(np.prod(batch)) if batch
-                                       else 0, ov)
+    dtol = 2e-4
+    if case.get("threads"):
+        import numba
+        if numba.get_num_threads() != case["threads"]:
+            return inconclusive("this worker's numba thread pool has %d threads, not %d" % (
+                numba.get_num_threads(), case["threads"]), sig="threads-not-active")
+        x = x.astype(np.complex128)          # double precision: exact adjointness to 1e-9
+        dtol = 1e-9
+    sig = "realistic|%dd|%s|b%d|%s%s" % (nd, "x".join(map(str, grid)), int(np.prod(batch))
+                                         if batch else 0, ov,
+                                         "|threads%d" % case["threads"] if case.get("threads")
+                                         else "")
     wit = {k: case[k] for k in ("grid", "batch", "oversamp", "width", "M", "ccls", "cseed")}
     wit["nd"] = nd
     y = sp.nufft(x, coord, oversamp=ov, width=w)
@@ -171,7 +181,7 @@ def run_realistic(case, rng):
     # adjoint: values at sampled voxels of every batch entry against the exact adjoint sum,
     # and the inner-product identity
     d = (rng.standard_normal(batch + [M], dtype=np.float32)
-         + 1j * rng.standard_normal(batch + [M], dtype=np.float32))
+         + 1j * rng.standard_normal(batch + [M], dtype=np.float32)).astype(x.dtype)
     xa = sp.nufft_adjoint(d, coord, batch + grid, oversamp=ov, width=w)
     if tuple(xa.shape) != tuple(batch + grid):
         return violated(sig, "nufft_adjoint output shape %s, expected %s" % (
@@ -193,7 +203,7 @@ def run_realistic(case, rng):
     lhs, rhs = inner(y, d), inner(x, xa)
     sc = nrm(y) * nrm(d) + nrm(x) * nrm(xa) + 1e-300
     checks += 1
-    if not abs(lhs - rhs) <= 2e-4 * sc:
+    if not abs(lhs - rhs) <= dtol * sc:
         return violated(sig, "<nufft x, d> = %s but <x, nufft_adjoint d> = %s" % (lhs, rhs), wit,
                         mech="adjoint")
     return held(sig, {"worst_err": worst, "bound": bound}, checks)
